@@ -372,14 +372,27 @@ func createConsumerForErrorReturn(rootNode *RootAssertionNode, errRetExpr ast.Ex
 	})
 }
 
+// addBlankResultTrigger handles the return of a blank named result (e.g., `_ *int`), which can be reached only by a
+// bare `return`. Such a result cannot be assigned, so it always holds the zero value of its type, i.e., nil. It is
+// not trackable, so here we directly match the passed return consumer with the producer `BlankVarReturn`, just as
+// it is done for functions that do not return an error or an `ok` boolean (see `computeAndConsumeResults`).
+func addBlankResultTrigger(rootNode *RootAssertionNode, consumer *annotation.ConsumeTrigger) {
+	if rootNode.Pass().ExprBarsNilness(consumer.Expr) {
+		return // the type of the result cannot be nil, so do nothing
+	}
+	rootNode.AddNewTriggers(annotation.FullTrigger{
+		Producer: &annotation.ProduceTrigger{
+			Annotation: &annotation.BlankVarReturn{ProduceTriggerTautology: &annotation.ProduceTriggerTautology{}},
+			Expr:       consumer.Expr,
+		},
+		Consumer: consumer,
+	})
+}
+
 // createGeneralReturnConsumers creates general return consumers for the non-return expressions in the return statement
 func createGeneralReturnConsumers(rootNode *RootAssertionNode, results []ast.Expr, retStmt *ast.ReturnStmt, isNamedReturn bool) {
 	for i := range results {
-		// don't do anything if the expression is a blank identifier ("_")
-		if asthelper.IsEmptyExpr(results[i]) {
-			continue
-		}
-		rootNode.AddConsumption(&annotation.ConsumeTrigger{
+		consumer := &annotation.ConsumeTrigger{
 			Annotation: &annotation.UseAsReturn{
 				TriggerIfNonNil: &annotation.TriggerIfNonNil{
 					Ann: annotation.RetKeyFromRetNum(rootNode.FuncObj(), i)},
@@ -387,7 +400,13 @@ func createGeneralReturnConsumers(rootNode *RootAssertionNode, results []ast.Exp
 				RetStmt:       retStmt},
 			Expr:   results[i],
 			Guards: guard.NoGuards(),
-		})
+		}
+		// a blank named result ("_") always holds the zero value of its type
+		if asthelper.IsEmptyExpr(results[i]) {
+			addBlankResultTrigger(rootNode, consumer)
+			continue
+		}
+		rootNode.AddConsumption(consumer)
 	}
 }
 
@@ -395,12 +414,7 @@ func createGeneralReturnConsumers(rootNode *RootAssertionNode, results []ast.Exp
 // for tracking potential "always safe" cases
 func createReturnConsumersForAlwaysSafe(rootNode *RootAssertionNode, nonErrResults []ast.Expr, retStmt *ast.ReturnStmt, isNamedReturn bool) {
 	for i := range nonErrResults {
-		// don't do anything if the expression is a blank identifier ("_")
-		if asthelper.IsEmptyExpr(nonErrResults[i]) {
-			continue
-		}
-
-		rootNode.AddConsumption(&annotation.ConsumeTrigger{
+		consumer := &annotation.ConsumeTrigger{
 			Annotation: &annotation.UseAsReturn{
 				TriggerIfNonNil: &annotation.TriggerIfNonNil{
 					Ann: &annotation.RetAnnotationKey{
@@ -413,17 +427,19 @@ func createReturnConsumersForAlwaysSafe(rootNode *RootAssertionNode, nonErrResul
 				RetStmt:              retStmt},
 			Expr:   nonErrResults[i],
 			Guards: guard.NoGuards(),
-		})
+		}
+		// a blank named result ("_") always holds the zero value of its type, so this return is not "always safe"
+		if asthelper.IsEmptyExpr(nonErrResults[i]) {
+			addBlankResultTrigger(rootNode, consumer)
+			continue
+		}
+		rootNode.AddConsumption(consumer)
 	}
 }
 
 // createSpecialConsumersForAllReturns conservatively creates specially designed consumers for all return expressions, error and non-error
 func createSpecialConsumersForAllReturns(rootNode *RootAssertionNode, nonErrRetExpr []ast.Expr, errRetExpr ast.Expr, errRetIndex int, retStmt *ast.ReturnStmt, isNamedReturn bool) {
 	for i := range nonErrRetExpr {
-		// don't do anything if the expression is a blank identifier ("_")
-		if asthelper.IsEmptyExpr(nonErrRetExpr[i]) {
-			continue
-		}
 		consumer := &annotation.ConsumeTrigger{
 			Annotation: &annotation.UseAsNonErrorRetDependentOnErrorRetNilability{
 				TriggerIfNonNil: &annotation.TriggerIfNonNil{Ann: annotation.RetKeyFromRetNum(rootNode.FuncObj(), i)},
@@ -432,6 +448,11 @@ func createSpecialConsumersForAllReturns(rootNode *RootAssertionNode, nonErrRetE
 			},
 			Expr:   nonErrRetExpr[i],
 			Guards: guard.NoGuards(),
+		}
+		// a blank named result ("_") always holds the zero value of its type
+		if asthelper.IsEmptyExpr(nonErrRetExpr[i]) {
+			addBlankResultTrigger(rootNode, consumer)
+			continue
 		}
 		rootNode.AddConsumption(consumer)
 	}
